@@ -19,12 +19,13 @@ SWEEP_BATCH = 100
 SWEEP_EXHAUSTIVE_NOTE = ("bounded sweep over B base documents (B = 4 quick, 40 thorough): the archive truncated at every "
                          "64th byte (every 7th byte in the thorough tier) and content.xml cut at every tag boundary")
 FEATURES = ["colruns", "rowruns", "s-single", "s-noc", "paragraphs", "spans", "emptyp", "stored", "utf16", "latin1",
-            "colstyle", "trailing-empty-run", "annotations", "embedded-object", "links"]
+            "colstyle", "trailing-empty-run", "annotations", "embedded-object", "links", "header-rows", "row-groups",
+            "covered-cells"]
 FAULT_KINDS = ["truncate", "xml-cut", "member-missing", "not-a-zip", "corrupt-member", "bad-repeat", "missing-sheet"]
 RULE_TEXT = (
     "seeded scenarios: 1-3 sheets of 0-6 rows x 0-8 cells over an alphabet with runs of equal cells, equal adjacent rows, "
     "multiple / leading / trailing blanks, tabs, line breaks, XML-special and non-ASCII characters, encoded by the ODF "
-    "peer with a random subset of its 15 optional encoding features, read by ods_rows(path, k) under a seeded chunk "
+    "peer with a random subset of its 18 optional encoding features, read by ods_rows(path, k) under a seeded chunk "
     "schedule; 35% carry exactly one fault; plus the bounded sweep in sweep_note. Non-trivial: the requested sheet has a "
     "non-empty cell (fault-free) / the fault fired (fault batch). Distinct: (features used in the encoding, sheet count "
     "and k, table shape, classes of special content, fault kind and position class, chunk regime)."
@@ -84,7 +85,7 @@ def generate(seed, tier):
         fault = {"kind": kind, "at": fault_rng.random()}
         if kind == "bad-repeat":
             fault["on"] = fault_rng.choice(["columns", "rows"])
-            fault["value"] = fault_rng.choice(["0", "-1", "x", "", "1.5", "-0"])
+            fault["value"] = fault_rng.choice(["0", "-1", "x", "", "1.5", "-0", "1_0", "\u0663", "0x2", "1e1", "\uff12"])
         if kind == "missing-sheet":
             sheet = len(sheets) + 1
     earlier = None
